@@ -153,3 +153,59 @@ Fixpoint views_eqb (a b : list level_view) : bool :=
    exactly the tensors the proven nest semantics `run` co-iterates *)
 Definition nest_okb (L : list rank) (sh : shape) (views : list level_view) : bool :=
   swf L sh && views_eqb (expected_views L sh) views.
+
+
+(* ---------- the update statement and the output tensor ---------- *)
+(* What the innermost statement of an emitted nest shows: whether it accumulates (`+=`) or assigns (`<<=`), and per
+   term the operands (by position in the term; scalar factors are rank-0 operands) whose leaf values are multiplied. *)
+Definition leaf_view := list (list nat).
+
+Definition leaf_val (t : tstate) : Z := match cur t with Leaf v => v | Node _ => 0 end.
+Definition dummy_t : tstate := {| rem := []; cur := Leaf 0 |}.
+Definition leaf_term_eval (tm : term) (ps : list nat) : Z :=
+  fold_right (fun i acc => leaf_val (nth i tm dummy_t) * acc) 1 ps.
+Fixpoint leaf_eval (lv : leaf_view) (tms : list term) : Z :=
+  match lv, tms with
+  | ps :: lv', tm :: tms' => leaf_term_eval tm ps + leaf_eval lv' tms'
+  | _, _ => 0
+  end.
+
+(* the nest as the text writes it: at the bottom the update expression the text shows *)
+Fixpoint run_lv (lv : leaf_view) (L : list rank) (tms : list term) : list contrib :=
+  match L with
+  | [] => [([], leaf_eval lv tms)]
+  | r :: L' => flat_map (fun c => map (fun qv => ((r, c) :: fst qv, snd qv)) (run_lv lv L' (map (step_term r c) tms)))
+                        (visited r tms)
+  end.
+
+(* the text multiplies, in every term, every operand exactly once *)
+Fixpoint leaf_okb (lv : leaf_view) (lens : list nat) : bool :=
+  match lv, lens with
+  | [], [] => true
+  | ps :: lv', n :: lens' => nats_eqb ps (seq 0 n) && leaf_okb lv' lens'
+  | _, _ => false
+  end.
+
+(* the output tensor: an output point fixes the coordinates of the output ranks only *)
+Definition rmem (r : rank) (out : list rank) : bool := existsb (String.eqb r) out.
+Definition matches_out (out : list rank) (o : point) (q : list (rank * coord)) : bool :=
+  forallb (fun rc => negb (rmem (fst rc) out) || Z.eqb (o (fst rc)) (snd rc)) q.
+(* `+=` : the output point holds the sum of every contribution written to it *)
+Fixpoint out_sum_at (out : list rank) (o : point) (cs : list contrib) : Z :=
+  match cs with [] => 0 | qv :: cs' => if matches_out out o (fst qv) then snd qv + out_sum_at out o cs' else out_sum_at out o cs' end.
+(* `<<=` : the output point holds the last contribution written to it (0 when none) *)
+Fixpoint out_assign_at (out : list rank) (o : point) (cs : list contrib) : Z :=
+  match cs with
+  | [] => 0
+  | qv :: cs' => if matches_out out o (fst qv) && negb (existsb (fun qv' => matches_out out o (fst qv')) cs')
+                 then snd qv else out_assign_at out o cs'
+  end.
+Definition nest_result (acc : bool) (out : list rank) (o : point) (cs : list contrib) : Z :=
+  if acc then out_sum_at out o cs else out_assign_at out o cs.
+
+(* an assignment is only allowed when no loop rank is reduced away *)
+Definition op_okb (acc : bool) (L out : list rank) : bool := acc || forallb (fun r => rmem r out) L.
+
+(* the full certified validator of one emitted sum-of-products program *)
+Definition nest_full_okb (L : list rank) (sh : shape) (views : list level_view) (acc : bool) (lv : leaf_view) (out : list rank) : bool :=
+  nest_okb L sh views && leaf_okb lv (map (@List.length _) sh) && op_okb acc L out.
